@@ -20,3 +20,38 @@ NUM_TIES = {
 
 def tie_text(pid):
     return HEADER + "".join(f"Lemma tie_{n} : @src_{n} = @{n}. Proof. reflexivity. Qed.\n" for n in NUM_TIES[pid])
+
+
+CALIB_HEADER = """(* Tie (assembled per check) for the calibration / side-effect facts read from calibrate.py,
+   library/ops.py and the module code by translators/gen_calib.py. *)
+From Coq Require Import String List ZArith Bool.
+From QV Require Import Model.Calib.
+From QD Require Import GenCalib.
+Import ListNotations.
+Open Scope string_scope.
+"""
+
+PURE = ["qmodule_forward", "qmodule_qweight", "qlinear_qforward", "qconv2d_qforward", "qlayernorm_qforward",
+        "quantize_weight", "quantize_activation", "sym_forward", "affine_forward", "qbytes_dequantize",
+        "qbits_dequantize", "group", "ungroup", "absmax_optimize", "max_optimize", "sym_opt_call",
+        "aff_opt_call", "absmax_scale", "freeze_model"]
+
+
+def calib_tie_text(pid):
+    t = CALIB_HEADER
+    if pid == "C12":
+        t += "Lemma tie_input_momentum : src_input_momentum = MConfigured. Proof. reflexivity. Qed.\n"
+        t += "Lemma tie_output_momentum : src_output_momentum = MConfigured. Proof. reflexivity. Qed.\n"
+        t += "Lemma tie_init_stores_momentum : src_init_stores_momentum = true. Proof. reflexivity. Qed.\n"
+        t += "Lemma tie_output_hook_recomputes : src_output_hook_recomputes = true. Proof. reflexivity. Qed.\n"
+        t += 'Lemma tie_input_hook_writes : src_input_hook_writes = ["module.input_scale"]. Proof. reflexivity. Qed.\n'
+    if pid == "C13":
+        t += "Lemma tie_enter : src_enter = enter_actions. Proof. reflexivity. Qed.\n"
+        t += "Lemma tie_exit : src_exit = exit_actions. Proof. reflexivity. Qed.\n"
+        t += "Lemma tie_disable_extensions : src_disable_extensions_restores = true. Proof. reflexivity. Qed.\n"
+        for n in PURE:
+            t += f"Lemma tie_effects_{n} : src_effects_{n} = []. Proof. reflexivity. Qed.\n"
+        t += 'Lemma tie_effects_freeze : src_effects_freeze = ["store self.weight"]. Proof. reflexivity. Qed.\n'
+        t += 'Lemma tie_effects_quantize : src_effects_quantize = ["call setattr"; "store qmodule.name"]. Proof. reflexivity. Qed.\n'
+        t += 'Lemma tie_hook_writes : src_input_hook_writes = ["module.input_scale"] /\\ src_output_hook_writes = ["child.activation_qtype"; "module.output_scale"; "output.src_module"]. Proof. split; reflexivity. Qed.\n'
+    return t
